@@ -338,9 +338,7 @@ def fam_trickle(w):
                 w.deliver(f)
         for f in w.inflight(3):
             w.deliver(f)
-    if w._reg() == 0 and not w.fin[0]:
-        w.advance(rng.uniform(0.0, 2.0))
-    w.verify()
+    w.verify()                              # at once: the youngest pending challenges of round one are still alive
     w.transfer()
     late = [f for f in w.inflight(4) if f[2][0] == 1]
     rng.shuffle(late)
